@@ -400,6 +400,10 @@ fn parse_expression_or_aggregate(
 /// 2. (expression)
 /// 3. PREFIX_UNARY_OP expression
 fn parse_primary(ctx: &mut ParsingContext<'_>) -> ParseResult<WithTokenSpan<Expression>> {
+    ctx.nested(_parse_primary)
+}
+
+fn _parse_primary(ctx: &mut ParsingContext<'_>) -> ParseResult<WithTokenSpan<Expression>> {
     let token = ctx.stream.peek_expect()?;
     let token_id = ctx.stream.get_current_token_id();
     match token.kind {
